@@ -1,9 +1,132 @@
 import HedVerif.Driver.Util
+import HedVerif.Driver.C10
+import HedVerif.Model.Tabular
 open Lean
 namespace HedVerif.Driver.C07
-open HedVerif HedVerif.Driver
+open HedVerif HedVerif.Driver HedVerif.Tabular
 
-/-- requests `{"op":"c07.<name>", ...}` of property C07 (stub: none yet) -/
-def handle (_op : String) (_j : Json) : Option (Except String Json) := none
+/-!
+`c07.validate`: one table + the string-level oracle collected so far (`"S": {text: {part: value}}`, parts
+`cell`, `full`, `banned`, `pfull`, `markers`, `items`).  Answer: `need` = the (part, text) pairs the model asks for that
+are not in `S` yet (the harness computes them with the real HedValidator and asks again), and, once nothing
+is needed, `exc` or `issues`.
+`c07.span`: `remapSpan`.
+-/
+
+def rissueOf (j : Json) : Except String RIssue := do
+  match (← asArr j) with
+  | [Json.str k, s] => pure ⟨k.toList, ← asNat s⟩
+  | _ => .error "issue must be [kind, sev]"
+
+def rissuesOf (j : Json) : List RIssue :=
+  match (do (← asArr j).mapM rissueOf : Except String (List RIssue)) with
+  | .ok l => l
+  | .error _ => []
+
+def dvalOf : Json → Option DVal
+  | Json.str "none" => some .none
+  | Json.str "bad" => some .bad
+  | Json.null => none
+  | j => match j.getInt? with
+    | .ok n => some (.num n)
+    | .error _ => none
+
+def itemsOf (j : Json) : Option (List Item) :=
+  match j with
+  | Json.arr a => some (a.toList.map fun it =>
+      match it with
+      | Json.arr #[Json.str t, d] => ⟨t.toList, dvalOf d⟩
+      | _ => ⟨[], none⟩)
+  | _ => none
+
+def part (S : Json) (p : String) (text : Str) : Option Json :=
+  match S.getObjVal? (String.ofList text) with
+  | .ok e => match e.getObjVal? p with
+    | .ok v => some v
+    | .error _ => none
+  | .error _ => none
+
+def oracleOf (S : Json) : Oracle where
+  cell t := ((part S "cell" t).map rissuesOf).getD []
+  full t := ((part S "full" t).map rissuesOf).getD []
+  pfull t := ((part S "pfull" t).map rissuesOf).getD []
+  banned t := ((part S "banned" t).map rissuesOf).getD []
+  items t := (part S "items" t).bind itemsOf
+  markers t := match (part S "markers" t).map C10.markersOf with
+    | some (.ok l) => l
+    | _ => []
+  fold := C10.foldAscii
+
+def strList (j : Json) (k : String) : Except String (List Str) := do (← getArr j k).mapM asStr
+
+def rowOf (j : Json) : Except String Row := do
+  let onset := match j.getObjVal? "onset" with
+    | .ok v => match v.getInt? with
+      | .ok n => some n
+      | .error _ => none
+    | .error _ => none
+  pure ⟨onset, ← strList j "cells", ← strList j "cats"⟩
+
+def temporalKind (e : Temporal.Err) : RIssue := ⟨("TEMPORAL_TAG_ERROR:" ++ C10.errName e).toList, 1⟩
+
+def cfgOf (j : Json) : Except String Cfg := do
+  let cats ← (← getArr j "catCols").mapM fun c => do
+    match (← asArr c) with
+    | [n, Json.arr ks] => pure (← asStr n, ← ks.toList.mapM asStr)
+    | _ => .error "catCols entry must be [name, keys]"
+  let S ← getVal j "S"
+  pure { rowAdj := ← getNat j "rowAdj", hasOnset := ← getBool j "hasOnset", columns := ← strList j "columns",
+         catCols := cats, mapIssues := rissuesOf (← getVal j "mapIssues"), refs := ← strList j "refs",
+         allColumns := ← strList j "allColumns", maskByRow := ← getBool j "maskByRow",
+         guardDelay := ← getBool j "guardDelay",
+         kKey := ⟨"SIDECAR_KEY_MISSING:SIDECAR_KEY_MISSING".toList, 10⟩,
+         kRef := ⟨"SIDECAR_BRACES_INVALID:INVALID_COLUMN_REF".toList, 1⟩,
+         kUnordered := ⟨"ONSETS_UNORDERED:ONSETS_UNORDERED".toList, 10⟩,
+         kTemporal := temporalKind, o := oracleOf S }
+
+def srcName : Src → String
+  | .mapping => "mapping" | .ref => "ref" | .unordered => "unordered" | .key .. => "key"
+  | .cell .. => "cell" | .row .. => "row" | .point .. => "point" | .temporal .. => "temporal"
+
+def needs (S : Json) (cfg : Cfg) (T : List Row) : List Json :=
+  let miss (p : String) (t : Str) : Option Json :=
+    if (part S p t).isSome then none else some (jarr [Json.str p, jstr t])
+  let R := (frame cfg T).map (·.2)
+  let cells := R.flatMap fun r => (live cfg r).filterMap fun c => miss "cell" c.2.2
+  let items := if cfg.hasOnset then R.filterMap fun r => miss "items" (seriesText cfg r) else []
+  if !(cells ++ items).isEmpty then cells ++ items
+  else
+    let rows := R.filterMap fun r => if (live cfg r).isEmpty then none else some (rowText cfg r)
+    let pts := if cfg.hasOnset then (timeFrame cfg R).filterMap fun x => if x.2.1.isEmpty then none else some x.2.1
+               else []
+    (rows.flatMap fun t => (["full", "banned"].filterMap fun p => miss p t)) ++
+    (pts.flatMap fun t => (["pfull", "markers"].filterMap fun p => miss p t))
+
+def excName : PyExc → String
+  | .typeError => "TypeError" | .valueError => "ValueError" | .indexError => "IndexError"
+
+def handle (op : String) (j : Json) : Option (Except String Json) :=
+  match op with
+  | "c07.validate" => some do
+      let cfg ← cfgOf j
+      let S ← getVal j "S"
+      let T ← (← getArr j "rows").mapM rowOf
+      let nd := (needs S cfg T).eraseDups
+      if !nd.isEmpty then pure <| jobj [("need", jarr nd)]
+      else
+        let F := frame cfg T
+        let extra := [("need", jarr []), ("sorted", jbool (needsSorting cfg T)), ("labels", jarr (F.map fun kr => jnat kr.1)),
+                      ("timeframe", if cfg.hasOnset then
+                          jarr ((timeFrame cfg (F.map (·.2))).map fun x =>
+                            jarr [jint x.1, jstr x.2.1, jnat ((F.map (·.1))[x.2.2]?.getD 0)]) else Json.null)]
+        match validate cfg T with
+        | .error e => pure <| jobj (("exc", Json.str (excName e)) :: extra)
+        | .ok out => pure <| jobj (("issues", jarr (out.map fun i =>
+            jarr [jstr i.kind, jnat i.sev, jopt jnat i.row, jopt jstr i.col, Json.str (srcName i.src), jstr i.text])) :: extra)
+  | "c07.span" => some do
+      let cells ← strList j "cells"
+      let sp := remapSpan cells (← getNat j "i") (← getNat j "a", ← getNat j "b")
+      pure <| jobj [("span", jarr [jnat sp.1, jnat sp.2]), ("joined", jstr (joinWith [','] cells))]
+  | _ => none
 
 end HedVerif.Driver.C07
